@@ -306,9 +306,19 @@ def _print_record(rng, table, names, initial, style):
             return f"[{r[0]}..{r[-1]}]"
         return "[" + ("," + sp()).join(str(x) for x in r) + "]"
     nm = "[" + ("," + sp()).join(f'"{x}"' if style != "bare" else x for x in names) + "]"
+    # the accepting field varies (the statement is about the transition table and the start state: every state and transition written in the text is loaded)
+    r_ = rng.random()
+    if r_ < 0.4 or n < 2:
+        acc = f"[1..{n}]"
+    elif r_ < 0.6:
+        acc = f"[2..{n}]"
+    elif r_ < 0.8:
+        acc = "[" + ",".join(str(i) for i in range(1, n + 1) if i % 2) + "]"
+    else:
+        acc = "[]"
     return (f"_RWS.wa :={sp()}rec({sp()}isFSA := true,{sp()}alphabet := rec({sp()}type := \"identifiers\",{sp()}size := {len(names)},{sp()}format := \"dense\",{sp()}names := {nm}{sp()}),"
             f"{sp()}states := rec({sp()}type := \"simple\",{sp()}size := {n}{sp()}),{sp()}flags := [\"DFA\",\"minimized\",\"BFS\",\"accessible\",\"trim\"],{sp()}initial := [{initial}],"
-            f"{sp()}accepting := [1..{n}],{sp()}table := rec({sp()}format := \"dense deterministic\",{sp()}numTransitions := {sum(1 for r in table for x in r if x)},"
+            f"{sp()}accepting := {acc},{sp()}table := rec({sp()}format := \"dense deterministic\",{sp()}numTransitions := {sum(1 for r in table for x in r if x)},"
             f"{sp()}transitions := [" + ("," + sp()).join(row(r) for r in table) + f"]{sp()}){sp()});\n")
 
 
